@@ -171,6 +171,109 @@ def vmap_vs_per_index(case, ctx):
 
 
 # ----------------------------------------------------------------------------
+class Noisy(nnx.Module):
+  def __init__(self, d, seeds):
+    self.w = nnx.Param(jnp.ones((d,)))
+    self.count = Count(jnp.zeros((1,)))
+    self.rngs = nnx.Rngs(**seeds)
+
+
+def noisy_body(m, x, streams):
+  y = x * m.w.value
+  for s in streams:
+    y = y + jax.random.normal(m.rngs[s](), x.shape)
+  m.count.value = m.count.value + 1.0
+  return y
+
+
+def split_case():
+  return st.fixed_dictionaries({
+      'd': st.integers(1, 3), 'n': st.integers(1, 4),
+      'streams': st.lists(st.sampled_from(['noise', 'drop']), min_size=1,
+                          max_size=2, unique=True),
+      'draws': st.integers(1, 2),
+      'calls': st.integers(1, 3),
+      'form': st.sampled_from(['decorator', 'context', 'manual']),
+      'pre': st.integers(0, 2),
+      'seed': st.integers(0, 2**16),
+  })
+
+
+@clause('split_rngs_patterns', strategy=split_case, quick=120, thorough=4000,
+        quick_shards=8, thorough_shards=16, shrink=False,
+        rule='a module with 1-2 RngStreams (0-2 keys already drawn) mapped '
+        'with nnx.vmap over split rng state, 1-3 calls on the same module; '
+        'split_rngs as decorator above nnx.vmap, as context manager, or '
+        'manual split + restore_rngs: every call equals the per-index loop '
+        'that draws one key per stream from the (real) parent stream, splits '
+        'it n ways and runs index i eagerly with an Rngs seeded by split i; '
+        'afterwards the streams are unsplit, hold their original key and the '
+        'count the reference parent streams hold, and the Count variable the '
+        'stacked per-index value; non-trivial = n>=2 and calls>=2')
+def split_rngs_patterns(case, ctx):
+  d, n, streams = case['d'], case['n'], case['streams']
+  draws = [s for s in streams for _ in range(case['draws'])]
+  seeds = {s: case['seed'] + 7 * j for j, s in enumerate(streams)}
+  m = Noisy(d, seeds)
+  ref = nnx.Rngs(**seeds)
+  for _ in range(case['pre']):
+    for s in streams:
+      m.rngs[s]()
+      ref[s]()
+  keys0 = {s: np.asarray(jax.random.key_data(m.rngs[s].key.value))
+           for s in streams}
+  rng = np.random.default_rng(case['seed'])
+  axes = nnx.StateAxes({nnx.RngState: 0, Count: 0, ...: None})
+  vm = nnx.vmap(lambda mm, x: noisy_body(mm, x, draws), in_axes=(axes, 0))
+  count_ref = np.zeros((n, 1), np.float32)
+  m.count.value = jnp.asarray(count_ref)
+  outs = []
+  for c in range(case['calls']):
+    xs = rng.normal(size=(n, d)).astype(np.float32)
+    # reference: one key per stream from the parent, split n ways
+    sub = {s: jax.random.split(ref[s](), n) for s in streams}
+    ys = []
+    for i in range(n):
+      mi = Noisy(d, {s: sub[s][i] for s in streams})
+      mi.count.value = jnp.asarray(count_ref[i])
+      ys.append(np.asarray(noisy_body(mi, jnp.asarray(xs[i]), draws)))
+      count_ref[i] = np.asarray(mi.count.value)
+    with sut(f'split_rngs ({case["form"]}) + nnx.vmap'):
+      if case['form'] == 'decorator':
+        y = nnx.split_rngs(splits=n)(vm)(m, jnp.asarray(xs))
+      elif case['form'] == 'context':
+        with nnx.split_rngs(m, splits=n):
+          y = vm(m, jnp.asarray(xs))
+      else:
+        backups = nnx.split_rngs(m, splits=n)
+        y = vm(m, jnp.asarray(xs))
+        nnx.restore_rngs(backups)
+    require(close(y, np.stack(ys)), lambda: f'call {c}: split_rngs + nnx.vmap '
+            'output differs from the per-index loop over the split keys')
+    outs.append(np.asarray(y) - xs)
+    for s in streams:
+      st_ = m.rngs[s]
+      require(np.shape(st_.key.value) == () and np.array_equal(
+          np.asarray(jax.random.key_data(st_.key.value)), keys0[s]),
+              lambda: f'call {c}: stream {s} does not hold its original key '
+              'after the split was undone')
+      require(np.shape(st_.count.value) == () and int(st_.count.value) == int(
+          ref[s].count.value), lambda: f'call {c}: stream {s} left with count '
+              f'{np.asarray(st_.count.value)}, the reference parent stream is '
+              f'at {int(ref[s].count.value)}')
+    require(close(m.count.value, count_ref), lambda: f'call {c}: Count state')
+  if n >= 2:
+    require(not np.allclose(outs[0][0], outs[0][1]),
+            'two indices drew the same noise from a split stream')
+  if len(outs) >= 2:
+    require(not np.allclose(outs[0], outs[1]),
+            'two calls on the same module drew the same noise')
+  ctx.note(labels=[case['form'], f'n{n}', f'calls{case["calls"]}',
+                   f'pre{case["pre"]}', f'streams{len(streams)}'],
+           nontrivial=n >= 2 and case['calls'] >= 2)
+
+
+# ----------------------------------------------------------------------------
 def scan_case():
   return st.fixed_dictionaries({
       'd': st.integers(1, 3), 'n': st.integers(1, 4),
